@@ -288,6 +288,30 @@ func vfC06NewValidator(spec map[string]interface{}) (*Validator, string, error) 
 	return v, string(yb), nil
 }
 
+// vfC06NextGeneration does what Pipeline.Inherit does with a filter of the same name and kind on
+// a pipeline update: a new instance from the new spec inherits the previous generation, then the
+// previous generation is closed.
+func vfC06NextGeneration(spec map[string]interface{}, prev *Validator) (*Validator, string, error) {
+	spec["kind"] = Kind
+	spec["name"] = "vf-validator"
+	yb, err := yaml.Marshal(spec)
+	if err != nil {
+		return nil, "", err
+	}
+	raw := map[string]interface{}{}
+	if err := yaml.Unmarshal(yb, &raw); err != nil {
+		return nil, string(yb), err
+	}
+	s, err := filters.NewSpec(nil, "", raw)
+	if err != nil {
+		return nil, string(yb), err
+	}
+	v := &Validator{spec: s.(*Spec)}
+	v.Inherit(prev)
+	prev.Close()
+	return v, string(yb), nil
+}
+
 // ---------------------------------------------------------------- variants and comparison
 
 // vfVariant is one request to evaluate, with what the oracle wants.
@@ -568,6 +592,19 @@ func vfWriteHtpasswd(users []vfUser, salt []byte) (string, error) {
 	}
 	name := fmt.Sprintf("vfc06-htpasswd-%d-%d", os.Getpid(), atomic.AddInt64(&vfFileSeq, 1))
 	return name, os.WriteFile(name, []byte(b.String()), 0o600)
+}
+
+// vfRewriteHtpasswd changes the user file in place (same inode, as an editor or `htpasswd` does).
+func vfRewriteHtpasswd(name string, users []vfUser, salt []byte) error {
+	var b strings.Builder
+	for _, u := range users {
+		l, err := vfHtpasswdLine(u, salt)
+		if err != nil {
+			return err
+		}
+		b.WriteString(l + "\n")
+	}
+	return os.WriteFile(name, []byte(b.String()), 0o600)
 }
 
 // vfBasicVerdict: accepted <=> (user, password) equals a configured pair exactly; the
